@@ -664,6 +664,11 @@ func handleRename(params internal.HandlerFuncParams) ([]byte, error) {
 		return nil, errors.New("no such key")
 	}
 
+	// Renaming a key to itself changes nothing.
+	if oldKey == newKey {
+		return []byte("+OK\r\n"), nil
+	}
+
 	// Set the new key with the old value
 	if err := params.SetValues(params.Context, map[string]interface{}{newKey: oldValue}); err != nil {
 		return nil, err
